@@ -1161,6 +1161,167 @@ fn scenario(id: usize, rng: &mut Rng) -> TraceResult {
 }
 const NSCENARIOS: usize = 8;
 
+
+// ------------------------------------------------------------------------------------------
+// key registry aliasing: the same key bytes under two scheme numbers / for two topics / under two
+// registries / at two issuers; entries removed first or last, re-allowed after removal
+// ------------------------------------------------------------------------------------------
+#[derive(Clone, Copy)]
+struct KOp { allow: bool, i: usize, sc: u32, t: u32, c: usize }
+fn kal(i: usize, sc: u32, t: u32, c: usize) -> KOp { KOp { allow: true, i, sc, t, c } }
+fn krm(i: usize, sc: u32, t: u32, c: usize) -> KOp { KOp { allow: false, i, sc, t, c } }
+
+/// the scheme number under which the key bytes of a key of scheme `sc` are registered a second time
+fn alias_scheme(sc: u32) -> u32 { match sc { SECP256K1 => SECP256R1, SECP256R1 => SECP256K1, _ => 7 } }
+/// the signature data of a genuine claim re-laid-out for the alias scheme (same key bytes, same signature)
+fn alias_sig(sig: &[u8], pkl: usize, alias: u32) -> std::vec::Vec<u8> {
+    if expected_len(alias).is_none() { return sig.to_vec(); }
+    let mut v = sig[..pkl + 64].to_vec(); if alias == SECP256K1 { v.extend_from_slice(&[0, 0, 0, 0]); } v
+}
+
+/// universe of the aliasing scenarios: topics 1 and 2 required at both registries, every issuer trusted for both
+/// at both, account a0 -> identity d0, topic 2 permanently covered by a claim of issuer i2 (so that
+/// verify_identity(a0) follows what issuer i0 says about topic 1); no key allowed at i0 / i1 yet.
+/// `ks`: the keys whose bytes are also observed (get_registries) under their alias scheme
+fn alias_world(rng: &mut Rng, ks: &[usize]) -> World {
+    let mut w = World::new(rng, &std_sizes()); w.tag = "d:";
+    for &k in ks { let (pk, sc) = (w.keys[k].pk.clone(), w.keys[k].scheme); w.extra_keys.push((pk, alias_scheme(sc))); }
+    let (c0, c1, r0) = (w.ctis[0], w.ctis[1], w.irss[0]);
+    let (i2, d0, a0) = (w.issuers[2], w.idents[0], w.accounts[0]);
+    for c in [c0, c1] { w.add_topic(c, 1); w.add_topic(c, 2); for i in w.issuers.clone() { w.add_issuer(c, i, &[1, 2]); } }
+    w.add_identity(r0, a0, d0, 1); w.set_cti(c0); w.set_irs(r0);
+    let (pk, sc) = (w.keys[1].pk.clone(), w.keys[1].scheme); w.allow_key(i2, &pk, c0, sc, 2);
+    let c = w.far_claim(d0, i2, 2, 1); w.add_claim(d0, &c);
+    w
+}
+
+impl World {
+    /// runs key operations on the key bytes `pk` one by one; after each one asks every probe's issuer about the
+    /// probe's claim (one y/n per probe) and verifies account a: label = step / outcome / answers
+    fn alias_run(&mut self, name: &str, pk: &[u8], ops: &[KOp], probes: &[(usize, usize, ClaimSpec)], a: usize) {
+        for (n_, op) in ops.iter().enumerate() {
+            let ok = if op.allow { self.allow_key(op.i, pk, op.c, op.sc, op.t) } else { self.remove_key(op.i, pk, op.c, op.sc, op.t) };
+            let pos = |v: &std::vec::Vec<usize>, x: usize| v.iter().position(|y| *y == x).unwrap_or(9);
+            let what = format!("{}_i{}_s{}_t{}_r{}", if op.allow { "allow" } else { "remove" }, pos(&self.issuers, op.i), op.sc, op.t, pos(&self.ctis, op.c));
+            let mut st = String_::new();
+            for (i, d, cl) in probes { let y = self.is_claim_valid(*i, *d, cl.topic, cl.scheme, &cl.sig, &cl.data); st.push(if y { 'y' } else { 'n' }); }
+            let v = self.verify(a);
+            self.label(&format!("alias/{}/{}_{}_{}/{}/verify_{}", name, n_, what, if ok { "ok" } else { "fail" }, st, v));
+        }
+    }
+    /// removes whatever authorisations (pk, scheme, topic, registry) are still recorded, and the claims (i, t) of the identities
+    fn alias_cleanup(&mut self, i: usize, pk: &[u8], schemes: &[u32], topics: &[u32], idents: &[usize]) {
+        for &sc in schemes { for &t in topics { for c in self.ctis.clone() {
+            if self.isc(i).try_key_allowed_topic(&self.bytes(pk), &sc, &t).ok().and_then(|r| r.ok()) == Some(true) { self.remove_key(i, pk, c, sc, t); }
+        } } }
+        for &d in idents { for &t in topics { if self.idc(d).try_get_claim(&self.cid_of(i, t)).ok().and_then(|r| r.ok()).is_some() { self.remove_claim(d, i, t); } } }
+    }
+    /// the same key bytes allowed for topic 1 at issuer i under the key's own scheme and under its alias scheme
+    /// (`genuine_first`: registration order), identity d0 holding a genuine claim, d1 the same signature presented
+    /// under the alias scheme; then the entry registered first (`rm_first`) or last is removed, allowed again,
+    /// the other one removed, ...; `filler`: an unrelated key registered before the two
+    fn alias_schemes_case(&mut self, name: &str, i: usize, k: usize, genuine_first: bool, rm_first: bool, filler: Option<usize>) {
+        let (c0, c1, d0, d1, a0) = (self.ctis[0], self.ctis[1], self.idents[0], self.idents[1], self.accounts[0]);
+        let (pk, g) = (self.keys[k].pk.clone(), self.keys[k].scheme); let x = alias_scheme(g);
+        let (s1, s2) = if genuine_first { (g, x) } else { (x, g) };
+        if let Some(f) = filler { let (fpk, fsc) = (self.keys[f].pk.clone(), self.keys[f].scheme); self.allow_key(i, &fpk, c0, fsc, 1); }
+        self.allow_key(i, &pk, c0, s1, 1);
+        self.remove_key(i, &pk, c0, s2, 1);             // the other scheme number was never allowed: refused, nothing changes
+        self.remove_key(i, &pk, c1, s1, 1);             // nor this one under the other registry
+        self.remove_key(i, &pk, c0, s1, 2);             // nor for the other topic
+        self.allow_key(i, &pk, c0, s2, 1);
+        let gc = self.far_claim(d0, i, 1, k); self.add_claim(d0, &gc);
+        let ac = ClaimSpec { scheme: x, sig: alias_sig(&gc.sig, pk.len(), x), ..gc.clone() }; self.force_claim(d1, i, 1, 1, &ac);
+        let ops = if rm_first { [krm(i, s1, 1, c0), kal(i, s1, 1, c0), krm(i, s1, 1, c0), krm(i, s2, 1, c0), kal(i, s1, 1, c0)] }
+                  else { [krm(i, s2, 1, c0), kal(i, s2, 1, c0), krm(i, s1, 1, c0), krm(i, s2, 1, c0), kal(i, s2, 1, c0)] };
+        self.alias_run(name, &pk, &ops, &[(i, d0, gc)], a0);
+        self.alias_cleanup(i, &pk, &[g, x], &[1], &[d0, d1]);
+        if let Some(f) = filler { let (fpk, fsc) = (self.keys[f].pk.clone(), self.keys[f].scheme); self.remove_key(i, &fpk, c0, fsc, 1); }
+    }
+}
+
+fn alias_scenario(id: usize, rng: &mut Rng) -> TraceResult {
+    match id {
+        0 | 1 => { // two scheme numbers, one topic: 65-byte keys of secp256k1 (id 0) / secp256r1 (id 1), every order
+            let k = if id == 0 { 2 } else { 4 };
+            let mut w = alias_world(rng, &[k]);
+            let i0 = w.issuers[0];
+            let kind = if id == 0 { "k1" } else { "r1" };
+            let mut n_ = 0;
+            for genuine_first in [true, false] { for rm_first in [true, false] {
+                let filler = if n_ % 2 == 1 { Some(0) } else { None }; n_ += 1;
+                w.alias_schemes_case(&format!("schemes/{}/{}_first/rm_{}", kind, if genuine_first { "own" } else { "alias" }, if rm_first { "first" } else { "last" }), i0, k, genuine_first, rm_first, filler);
+            } }
+            w.finish(&format!("key aliasing: the same {} key bytes under two scheme numbers", kind))
+        }
+        2 => { // 32-byte key under scheme 101 and an unknown scheme number; the second keys of the other schemes at another issuer
+            let mut w = alias_world(rng, &[0, 3, 5]);
+            let (i0, i1) = (w.issuers[0], w.issuers[1]);
+            w.alias_schemes_case("schemes/ed/alias_first/rm_last", i0, 0, false, false, None);
+            w.alias_schemes_case("schemes/ed/own_first/rm_last", i0, 0, true, false, Some(2));
+            w.alias_schemes_case("schemes/k1b/alias_first/rm_last", i1, 3, false, false, Some(4));
+            w.alias_schemes_case("schemes/r1b/own_first/rm_last", i1, 5, true, false, Some(1));
+            // two scheme numbers on DIFFERENT topics: nothing to do with each other
+            let (c0, d0, a0) = (w.ctis[0], w.idents[0], w.accounts[0]);
+            let (pk, g) = (w.keys[2].pk.clone(), w.keys[2].scheme); let x = alias_scheme(g);
+            w.allow_key(i0, &pk, c0, g, 1); let gc = w.far_claim(d0, i0, 1, 2); w.add_claim(d0, &gc);
+            w.alias_run("schemes/cross_topics", &pk, &[kal(i0, x, 2, c0), krm(i0, x, 1, c0), krm(i0, g, 2, c0), krm(i0, x, 2, c0), krm(i0, g, 1, c0), kal(i0, x, 1, c0), kal(i0, g, 1, c0), krm(i0, x, 1, c0)], &[(i0, d0, gc)], a0);
+            w.alias_cleanup(i0, &pk, &[g, x], &[1, 2], &[d0]);
+            w.finish("key aliasing: 32-byte key under an unknown scheme number, other keys, schemes on different topics")
+        }
+        3 => { // one signing key, two topics: allowed in both orders, removed first / last, allowed again
+            let mut w = alias_world(rng, &[]);
+            let (c0, i0, d0, a0) = (w.ctis[0], w.issuers[0], w.idents[0], w.accounts[0]);
+            let mut n_ = 0;
+            for (ta, tb) in [(1u32, 2u32), (2, 1)] { for rm_first in [true, false] {
+                let k = [0usize, 2, 4, 3][n_]; n_ += 1;
+                let (pk, g) = (w.keys[k].pk.clone(), w.keys[k].scheme);
+                w.allow_key(i0, &pk, c0, g, ta); w.remove_key(i0, &pk, c0, g, tb); w.allow_key(i0, &pk, c0, g, tb);
+                let p1 = w.far_claim(d0, i0, 1, k); w.add_claim(d0, &p1); let p2 = w.far_claim(d0, i0, 2, k); w.add_claim(d0, &p2);
+                let ops = if rm_first { [krm(i0, g, ta, c0), kal(i0, g, ta, c0), krm(i0, g, ta, c0), krm(i0, g, tb, c0), kal(i0, g, ta, c0)] }
+                          else { [krm(i0, g, tb, c0), kal(i0, g, tb, c0), krm(i0, g, ta, c0), krm(i0, g, tb, c0), kal(i0, g, tb, c0)] };
+                w.alias_run(&format!("topics/t{}_first/rm_{}", ta, if rm_first { "first" } else { "last" }), &pk, &ops, &[(i0, d0, p1), (i0, d0, p2)], a0);
+                w.alias_cleanup(i0, &pk, &[g], &[1, 2], &[d0]);
+            } }
+            w.finish("key aliasing: one signing key allowed for two topics")
+        }
+        4 => { // one signing key, one topic, two registries: allowed while one of the two authorisations is left
+            let mut w = alias_world(rng, &[]);
+            let (c0, c1, i0, d0, a0) = (w.ctis[0], w.ctis[1], w.issuers[0], w.idents[0], w.accounts[0]);
+            let mut n_ = 0;
+            for (ca, cb) in [(c0, c1), (c1, c0)] { for rm_first in [true, false] {
+                let k = [4usize, 0, 2, 5][n_]; n_ += 1;
+                let (pk, g) = (w.keys[k].pk.clone(), w.keys[k].scheme);
+                w.allow_key(i0, &pk, ca, g, 1); w.remove_key(i0, &pk, cb, g, 1); w.allow_key(i0, &pk, cb, g, 1); w.allow_key(i0, &pk, cb, g, 1);
+                let p1 = w.far_claim(d0, i0, 1, k); w.add_claim(d0, &p1);
+                let ops = if rm_first { [krm(i0, g, 1, ca), krm(i0, g, 1, ca), kal(i0, g, 1, ca), krm(i0, g, 1, ca), krm(i0, g, 1, cb), kal(i0, g, 1, ca)] }
+                          else { [krm(i0, g, 1, cb), krm(i0, g, 1, cb), kal(i0, g, 1, cb), krm(i0, g, 1, ca), krm(i0, g, 1, cb), kal(i0, g, 1, cb)] };
+                w.alias_run(&format!("registries/r{}_first/rm_{}", if ca == c0 { 0 } else { 1 }, if rm_first { "first" } else { "last" }), &pk, &ops, &[(i0, d0, p1)], a0);
+                w.alias_cleanup(i0, &pk, &[g], &[1], &[d0]);
+            } }
+            w.finish("key aliasing: one signing key allowed for one topic under two registries")
+        }
+        _ => { // everything at once: two scheme numbers x two topics x two registries; the same signing key at two issuers
+            let mut w = alias_world(rng, &[2, 4]);
+            let (c0, c1, i0, i1, d0, d1, a0) = (w.ctis[0], w.ctis[1], w.issuers[0], w.issuers[1], w.idents[0], w.idents[1], w.accounts[0]);
+            let (pk, g) = (w.keys[2].pk.clone(), w.keys[2].scheme); let x = alias_scheme(g);
+            for (sc, t, c) in [(g, 1, c0), (x, 1, c0), (g, 2, c0), (g, 1, c1), (x, 2, c1), (x, 1, c1)] { w.allow_key(i0, &pk, c, sc, t); }
+            let p1 = w.far_claim(d0, i0, 1, 2); w.add_claim(d0, &p1); let p2 = w.far_claim(d0, i0, 2, 2); w.add_claim(d0, &p2);
+            for p in [&p1, &p2] { let ac = ClaimSpec { scheme: x, sig: alias_sig(&p.sig, pk.len(), x), ..p.clone() }; w.force_claim(d1, i0, p.topic, p.topic, &ac); }
+            w.alias_run("mixed", &pk, &[krm(i0, x, 1, c0), krm(i0, g, 1, c0), krm(i0, x, 1, c1), krm(i0, g, 2, c0), krm(i0, g, 2, c1), krm(i0, g, 1, c1), kal(i0, g, 2, c1), krm(i0, x, 2, c1), kal(i0, g, 1, c0), kal(i0, x, 1, c0), krm(i0, g, 1, c0)],
+                        &[(i0, d0, p1), (i0, d0, p2)], a0);
+            w.alias_cleanup(i0, &pk, &[g, x], &[1, 2], &[d0, d1]);
+            // the same signing key allowed for the same topic at two issuers
+            let (pk, g) = (w.keys[4].pk.clone(), w.keys[4].scheme);
+            w.allow_key(i0, &pk, c0, g, 1); w.allow_key(i1, &pk, c0, g, 1);
+            let q0 = w.far_claim(d0, i0, 1, 4); w.add_claim(d0, &q0); let q1 = w.far_claim(d0, i1, 1, 4); w.add_claim(d0, &q1);
+            w.alias_run("issuers", &pk, &[krm(i0, g, 1, c0), kal(i0, g, 1, c0), krm(i1, g, 1, c0), krm(i0, g, 1, c0), kal(i1, g, 1, c0)], &[(i0, d0, q0), (i1, d0, q1)], a0);
+            w.finish("key aliasing: schemes x topics x registries; one signing key at two issuers")
+        }
+    }
+}
+const NALIAS: usize = 6;
+
 fn subset(rng: &mut Rng, ts: &[u32], p_num: u64, p_den: u64) -> std::vec::Vec<u32> { ts.iter().cloned().filter(|_| rng.chance(p_num, p_den)).collect() }
 
 fn random_trace(idx: usize, rng: &mut Rng, thorough: bool) -> TraceResult {
@@ -1223,7 +1384,7 @@ fn random_trace(idx: usize, rng: &mut Rng, thorough: bool) -> TraceResult {
                 let reg = match rng.below(10) { 0 => w.bogus[0], 1 | 2 => ctis[1], _ => ctis[0] };
                 match rng.below(10) { 0..=5 => { w.allow_key(ri, &pk, reg, sc, t); } 6 => { w.allow_key(ri, &pk, reg, if rng.chance(1, 2) { sc + 1 } else { 7 }, t); if !w.extra_keys.iter().any(|x| x.0 == pk) && w.extra_keys.len() < 2 { /* observed through keys_for_topic */ } }
                     7 => { w.allow_key(ri, &[], reg, sc, t); }
-                    _ => { if let (true, Some((ai, ak, at))) = (rng.chance(3, 4), w.allowed_combo(rng)) { let (apk, asc) = (w.keys[ak].pk.clone(), w.keys[ak].scheme); w.remove_key(ai, &apk, if rng.chance(4, 5) { ctis[0] } else { ctis[1] }, asc, at); } else { w.remove_key(ri, &pk, reg, sc, t); } } }
+                    _ => { if let (true, Some((ai, ak, at))) = (rng.chance(3, 4), w.allowed_combo(rng)) { let (apk, asc) = (w.keys[ak].pk.clone(), w.keys[ak].scheme); w.remove_key(ai, &apk, if rng.chance(4, 5) { ctis[0] } else { ctis[1] }, asc, at); } else { let rsc = match rng.below(6) { 0 => sc + 1, 1 => 7, _ => sc }; w.remove_key(ri, &pk, reg, rsc, t); } } }
             }
             44..=66 if !w.foreign.is_empty() && rng.chance(1, 4) => { // a claim naming a foreign issuer (any answer), added or stored behind its back
                 let f = if rng.chance(9, 10) { *rng.pick(&w.foreign.clone()) } else { i };
@@ -1280,7 +1441,7 @@ fn main() {
     out.per_shard(120);
     let seed = out.cfg.seed; let thorough = out.cfg.thorough; let scale = out.cfg.scale as usize;
     let nrandom = if thorough { 600 } else { 90 } * scale;
-    let njobs = NSCENARIOS + NLIMITS + nrandom;
+    let njobs = NSCENARIOS + NLIMITS + NALIAS + nrandom;
     let nthreads = std::thread::available_parallelism().map(|n| n.get()).unwrap_or(4).min(16);
     let mut results: std::vec::Vec<Option<TraceResult>> = (0..njobs).map(|_| None).collect();
     let chunks: std::vec::Vec<std::vec::Vec<(usize, TraceResult)>> = std::thread::scope(|s| {
@@ -1290,7 +1451,7 @@ fn main() {
             while j < njobs {
                 // every trace derives its own generator from (seed, index): the run is a function of the seed
                 let mut rng = Rng::new(seed.wrapping_mul(0x9E37_79B9).wrapping_add(j as u64 * 7919 + 13));
-                let r = if j < NSCENARIOS { scenario(j, &mut rng) } else if j < NSCENARIOS + NLIMITS { limit_scenario(j - NSCENARIOS, &mut rng) } else { random_trace(j - NSCENARIOS - NLIMITS, &mut rng, thorough) };
+                let r = if j < NSCENARIOS { scenario(j, &mut rng) } else if j < NSCENARIOS + NLIMITS { limit_scenario(j - NSCENARIOS, &mut rng) } else if j < NSCENARIOS + NLIMITS + NALIAS { alias_scenario(j - NSCENARIOS - NLIMITS, &mut rng) } else { random_trace(j - NSCENARIOS - NLIMITS - NALIAS, &mut rng, thorough) };
                 vh::tick(); // progress mark for the hang watchdog (vh::start_watchdog)
                 res.push((j, r)); j += nthreads;
             }
